@@ -368,7 +368,144 @@ def pipeline(ctx):
                               (ph, idx % 6, key(ins[0].value)[:120] if ins else None, cs_win[ph][0], cs_win[ph][1][0], cs_win[ph][1][1]), o.loc)
 
 
+def phy_wiring(ctx):
+    """C20.6: how the LPDDR4 base PHY puts encoder and pipeline together (the file is one of the property's anchors)"""
+    ob = ctx.ob("C20.6", "LPDDR4 base PHY: one command adapter per DFI phase in phase order feeds the pipeline; the pipeline's overlap span equals the number of slots a "
+                         "command occupies in the adapter; CS / every CA line of the pads is the pipeline's line of the same index", 3)
+    try:
+        v = elab(ctx, "litedram.phy.lpddr4.basephy", "LPDDR4PHY", kwargs={"pads": pobj("pads"), "sys_clk_freq": Sym("sys_clk_freq"), "ser_latency": pobj("ser_latency"),
+                                                                       "des_latency": pobj("des_latency"), "phytype": Const("X")},
+                 opaque=("DFIPhaseAdapter", "CommandsPipeline", "DQOePattern", "DQSPattern", "ConstBitSlip", "TappedDelayLine", "Latency"))
+    except Exception as e:
+        ob.unknown("LPDDR4PHY not elaborated (%s)" % str(e)[:80])
+        return
+    cp = [o for o in v.d.objs if o.cls == "CommandsPipeline"]
+    ads = [o for o in v.d.objs if o.cls == "DFIPhaseAdapter"]
+    if not ob.need(len(cp) == 1 and len(ads) >= 2, "command pipeline / phase adapters not found in LPDDR4PHY (%d / %d)" % (len(cp), len(ads))):
+        return
+    lst = cp[0].kwargs.get("adapters", cp[0].args[0] if cp[0].args else None)
+    order = [str(x) for x in lst.items] if isinstance(lst, ListV) else None
+    phases = {str(o): key(o.kwargs.get("dfi_phase", o.args[0] if o.args else None)) for o in ads}
+    ob.instance("adapters handed to the pipeline", {"order": [phases.get(n_) for n_ in (order or [])]})
+    if order is None:
+        ob.unknown("the pipeline's adapter list is not a resolved list")
+    else:
+        got = [phases.get(n_) for n_ in order]
+        exp = ["dfi.p%d" % i for i in range(len(got))]
+        if got != exp or len(got) != len(ads):
+            ob.refute("adapter-order", "the pipeline receives the adapters of phases %s, expected one adapter per DFI phase in phase order %s: a command is emitted at the slot of "
+                      "another phase (or a phase has no adapter)" % (got, exp), cp[0].loc)
+    # slots per command: the length of the adapter's CS / CA lists
+    a4 = elab(ctx, "litedram.phy.lpddr4.commands", "DFIPhaseAdapter", kwargs={"dfi_phase": Sym("dfi"), "masked_write": Const(True)})
+    cs_attr = a4.top.attrs.get("cs")
+    nslots = None
+    if isinstance(cs_attr, Obj) and cs_attr.args and isinstance(cs_attr.args[0], Const):
+        nslots = cs_attr.args[0].v
+    ca_attr = a4.top.attrs.get("ca")
+    if nslots is None and isinstance(ca_attr, ListV):
+        nslots = len(ca_attr.items)
+    span = cp[0].kwargs.get("cmd_nphases_span")
+    ob.instance("overlap span", {"cmd_nphases_span": key(span) if span is not None else None, "slots per command in the adapter": nslots})
+    if nslots is None or span is None:
+        ob.unknown("slots per command / cmd_nphases_span not resolved")
+    elif not (isinstance(span, Const) and span.v == nslots):
+        ob.refute("span", "the pipeline masks overlaps over %s phases but an LPDDR4 command occupies %d slots: a command issued %s phases after another one is OR-ed onto its "
+                  "tail" % (key(span), nslots, key(span)), cp[0].loc)
+    cab = cp[0].kwargs.get("ca_nbits")
+    pins = {}
+    for l in v.leaves:
+        if l.inst == "" and l.kind == "assign" and key(l.target).startswith("out.c"):
+            pins[key(l.target)] = key(l.value)
+    ob.instance("pad lines", pins)
+    nca = cab.v if isinstance(cab, Const) else None
+    want = {"out.cs": str(cp[0]) + ".cs"}
+    for b in range(nca or 0):
+        want["out.ca[%d]" % b] = "%s.ca[%d]" % (cp[0], b)
+    bad = {k_: pins.get(k_) for k_, w_ in want.items() if pins.get(k_) != w_}
+    if nca is None:
+        ob.unknown("ca_nbits not resolved")
+    elif bad:
+        ob.refute("pad-lines", "pad lines %s are not driven by the pipeline line of the same index (expected %s)" % (bad, {k_: want[k_] for k_ in bad}), cp[0].loc)
+
+
+def lp5_slots(ctx):
+    """C20.7: LPDDR5 base PHY - a DFI command is two CA words; the second one is buffered for the next CK"""
+    ob = ctx.ob("C20.7", "LPDDR5 base PHY slot sequencing: the pads carry the buffered second word when one is pending, else the first word of a command presented now, "
+                         "else idle; the second word of a command is buffered exactly when its first word is emitted (a command arriving while a second word is going out "
+                         "is ignored as a whole); the buffered word is the adapter's second word", 3)
+    from ..ceval import CEval
+    from ..bits import Unresolved
+    import itertools
+    try:
+        v = elab(ctx, "litedram.phy.lpddr5.basephy", "LPDDR5PHY", kwargs={"pads": pobj("pads"), "sys_clk_freq": Sym("sys_clk_freq"), "ser_latency": pobj("ser_latency"),
+                                                                       "des_latency": pobj("des_latency"), "phytype": Const("X")},
+                 opaque=("DFIPhaseAdapter", "TappedDelayLine", "DQOePattern", "DQSPattern", "ConstBitSlip", "Latency", "HoldValid"))
+    except Exception as e:
+        ob.unknown("LPDDR5PHY not elaborated (%s)" % str(e)[:80])
+        return
+    bufs = [o for o in v.d.objs if o.cls in ("PipeValid", "Buffer") and v.drivers(str(o) + ".sink.valid")]
+    ads = [o for o in v.d.objs if o.cls == "DFIPhaseAdapter"]
+    if not ob.need(len(bufs) == 1 and len(ads) == 1, "second-word buffer / command adapter not found in LPDDR5PHY (%d / %d)" % (len(bufs), len(ads))):
+        return
+    B, A = str(bufs[0]), str(ads[0])
+    bv, av = B + ".source.valid", A + ".valid"
+    push = v.single_comb_def(Sym(B + ".sink.valid"))
+    if ob.need(push is not None, "push condition of the second-word buffer not a single definition"):
+        want = [Sym(av), Op("~", (Sym(bv),))]
+        r1, c1 = implies([push], want)
+        r2, c2 = implies(want, [push])
+        ob.instance("second-word push", {"condition": key(push), "== first word emitted now (adapter.valid & ~pending)": bool(r1 and r2)})
+        if r1 is False:
+            ob.refute("lp5-push", "the second word is buffered under %s, also when %s: the first word of that command is not emitted (a buffered second word is going out / no "
+                      "command is presented), so its second word later appears alone on CS/CA and overwrites another command's slot" %
+                      (key(push), sorted(k_ if x_ else "~" + k_ for k_, x_ in c1.items())), v.drivers(B + ".sink.valid")[0].loc)
+        elif r2 is False:
+            ob.refute("lp5-push", "the second word is not buffered although the first word is emitted (%s false for %s): the command loses its second half" %
+                      (key(push), sorted(k_ if x_ else "~" + k_ for k_, x_ in c2.items())), v.drivers(B + ".sink.valid")[0].loc)
+    pay = {f_: v.single_comb_def(Sym("%s.sink.%s" % (B, f_))) for f_ in ("cs", "ca_p", "ca_n")}
+    exp_pay = {"cs": A + ".cmd2.cs", "ca_p": A + ".cmd2.ca[0]", "ca_n": A + ".cmd2.ca[1]"}
+    ob.instance("buffered payload", {f_: key(t_) if t_ is not None else None for f_, t_ in pay.items()})
+    for f_, t_ in pay.items():
+        if t_ is not None and key(t_) != exp_pay[f_]:
+            ob.refute("lp5-payload:%s" % f_, "the buffer's %s is %s, expected the adapter's second word %s" % (f_, key(t_), exp_pay[f_]), None)
+    # pad lines by truth table
+    cfg = {"len(%s.source.ca_p)" % B: 7, "len(%s.source.ca_n)" % B: 7, "len(%s.cmd1.ca[0])" % A: 7, "len(%s.cmd1.ca[1])" % A: 7}
+    bad = None
+    n = 0
+    try:
+        for pend, val in itertools.product((0, 1), repeat=2):
+            for bits in itertools.product((0, 1), repeat=2):
+                env = {bv: pend, av: val, B + ".source.cs": bits[0], A + ".cmd1.cs": bits[1],
+                       B + ".source.ca_p": 0x7F if bits[0] else 0, B + ".source.ca_n": 0x7F if bits[0] else 0,
+                       A + ".cmd1.ca[0]": 0x7F if bits[1] else 0, A + ".cmd1.ca[1]": 0x7F if bits[1] else 0}
+                ce = CEval(v, env, cfg)
+                exp = bits[0] if pend else (bits[1] if val else 0)
+                for line in ("out.cs", "out.ca[0][0]", "out.ca[3][1]", "out.ca[6][0]", "out.ca[6][1]"):
+                    t_ = Sym("out.cs") if line == "out.cs" else Op("index", (Op("index", (Sym("out.ca"), Const(int(line[7])))), Const(int(line[10]))))
+                    dk_ = key(t_)
+                    ds_ = sorted(v.drivers(dk_), key=lambda l_: l_.order)
+                    if not ds_:
+                        raise Unresolved("no driver of %s" % dk_)
+                    got = 0
+                    for l_ in ds_:          # last assignment whose guards hold wins
+                        if ce.guard_true(l_, ds_):
+                            got = ce.val(l_.value) & 1
+                    n += 1
+                    if got != exp and bad is None:
+                        bad = (line, pend, val, bits, got, exp)
+    except Unresolved as e:
+        ob.unknown("pad lines of LPDDR5PHY not evaluable (%s)" % e)
+        return
+    ob.instance("pad line truth table", {"rows": n}, nontrivial=True)
+    if bad:
+        line, pend, val, bits, got, exp = bad
+        ob.refute("lp5-pads:%s" % line, "%s is %d with pending second word=%d, command presented=%d, (buffered bit, first-word bit)=%s; expected %d (pending second word first, "
+                  "then a new first word, else idle)" % (line, got, pend, val, bits, exp), None)
+
+
 def run(ctx):
+    phy_wiring(ctx)
+    lp5_slots(ctx)
     t4 = encoder(ctx, 4)
     decoder_agreement(ctx, 4, t4)
     t5 = encoder(ctx, 5)
